@@ -97,6 +97,73 @@ impl<'a, C> Filter for RecFilter<'a, C> {
     }
 }
 
+/// The runtime filter a MANUAL span (a span-kind event that already carries an extent, emitted through
+/// `Runtime::emit`) goes through: records the ids the filter sees (the event's own props first, then the ambient
+/// ctxt `emit_core::emit` appended) and the verdicts of both `TraceparentFilter` and `InSampledTraceFilter`, evaluated
+/// at the very point the runtime evaluates its filter. The event is emitted iff `TraceparentFilter` matched.
+struct EvtFilter<'a, C>(&'a World<C>);
+impl<'a, C> Filter for EvtFilter<'a, C> {
+    fn matches<E: emit::event::ToEvent>(&self, evt: E) -> bool {
+        let evt = evt.to_event();
+        let ids = ids_of_props(evt.props());
+        if evt.extent().map(|e| e.is_range()) != Some(true) {
+            self.0.log.lock().unwrap().push("!spanevt-without-range-extent".into());
+        }
+        let v = tp_matches(self.0, &evt);
+        let p2 = in_sampled_trace_filter(self.0.outside).matches(&evt);
+        self.0.log.lock().unwrap().push(format!("(spanevt {} {} {})", ids, v, p2));
+        v
+    }
+}
+
+/// `spanevt*`: a completed span emitted as an EVENT (no `SpanGuard`): the ids of a new child of the current span
+/// context, a range extent, `evt_kind: "span"`; nothing is pushed onto the ambient context.
+fn span_event<C: Held>(w: &World<C>, how: &str) -> Option<()> {
+    let emitted = Arc::new(AtomicUsize::new(0));
+    let e2 = emitted.clone();
+    let emitter = emit::emitter::from_fn(move |_| {
+        e2.fetch_add(1, Ordering::SeqCst);
+    });
+    let rt = emit::runtime::Runtime::build(emitter, EvtFilter(w), &w.ctxt, emit::Empty, &w.rng);
+    let before = w.log.lock().unwrap().len();
+    let sc = SpanCtxt::current(rt.ctxt()).new_child(rt.rng());
+    let ts = |s: u64| emit::Timestamp::from_unix(std::time::Duration::from_secs(s)).unwrap();
+    let extent = ts(1)..ts(2);
+    match how {
+        // the book's "creating spans without a SpanGuard": the ids as ordinary properties of an `emit!` event
+        "spanevt" => emit::emit!(
+            rt: &rt,
+            extent: extent,
+            "s",
+            evt_kind: "span",
+            #[emit::optional]
+            trace_id: sc.trace_id(),
+            #[emit::optional]
+            span_parent: sc.span_parent(),
+            #[emit::optional]
+            span_id: sc.span_id(),
+        ),
+        // a typed `Span` carrying its `SpanCtxt`, emitted through the runtime
+        "spanevts" => rt.emit(emit::Span::new(emit::Path::new_raw("c18"), "s", extent, sc)),
+        // … or through the macro's `evt:` argument
+        "spanevte" => emit::emit!(rt: &rt, evt: emit::Span::new(emit::Path::new_raw("c18"), "s", extent, sc)),
+        // the `SpanCtxt` as the base props of an `emit!` event
+        "spanevtp" => emit::emit!(rt: &rt, extent: extent, props: sc, "s", evt_kind: "span"),
+        _ => return None,
+    }
+    // the runtime consulted its filter exactly once and emitted the span iff `TraceparentFilter` matched
+    let mut log = w.log.lock().unwrap();
+    let verdicts: Vec<bool> = log[before..]
+        .iter()
+        .filter(|l| l.starts_with("(spanevt "))
+        .map(|l| l.split(' ').rev().nth(1) == Some("true"))
+        .collect();
+    if verdicts.len() != 1 || (emitted.load(Ordering::SeqCst) == 1) != verdicts[0] || emitted.load(Ordering::SeqCst) > 1 {
+        log.push("!spanevt-emitted-disagrees-with-filter".into());
+    }
+    Some(())
+}
+
 fn run_prog<C: Held>(w: &World<C>, p: &Sexp) -> Option<()>
 where
     C::Frame: Send,
@@ -126,6 +193,7 @@ where
             ));
             Some(())
         }
+        Sexp::Atom(a) if a.starts_with("spanevt") => span_event(w, a),
         Sexp::List(_) => {
             let (tag, args) = p.as_tagged()?;
             match tag {
@@ -569,6 +637,10 @@ where
 
 fn gen_prog(rng: &mut Rng, depth: usize, budget: &mut usize) -> Sexp {
     if *budget == 0 || depth == 0 || rng.chance(1, 4) {
+        // a leaf: mostly a plain event, sometimes a span emitted as an event (no guard), in one of its four spellings
+        if rng.chance(1, 4) {
+            return Sexp::atom(*rng.pick(&["spanevt", "spanevts", "spanevte", "spanevtp"]));
+        }
         return Sexp::atom("event");
     }
     *budget -= 1;
